@@ -385,6 +385,7 @@ pub fn generate(seed: u64, thorough: bool, emit: &mut dyn FnMut(String)) {
     }
     generate_hardening(seed, thorough, emit);
     generate_round3(seed, thorough, emit);
+    generate_round6(seed, thorough, emit);
 }
 
 /// an antiderivative of g (the library's derivative of it is g up to rounding)
@@ -726,5 +727,153 @@ fn generate_round3(seed: u64, thorough: bool, emit: &mut dyn FnMut(String)) {
         let itermax = *rng.pick(&[2000usize, 3000]);
         let p = as_kind_named(&cs, simple, &mut rng);
         emit_req(emit, &p, x0, tol, itermax, extrema);
+    }
+}
+
+// ---------------------------------------------------------------- round-6 families: block boundaries and exact relations
+
+/// (x - r)(a_0 + ... + a_{m-1} x^{m-1}), r = +1 / -1, small positive integers a_k without a short period or a mirror
+/// symmetry: integer coefficients of degree m, g(r) exactly 0 in any order of summation
+fn boundary_poly6(m: usize, r: f64, salt: usize) -> Vec<f64> {
+    let a: Vec<f64> = (0..m).map(|k| (1 + (k * k + 3 * k + salt) % 7) as f64).collect();
+    let mut g = vec![0.0; m + 1];
+    for (k, ak) in a.iter().enumerate() {
+        g[k + 1] += ak;
+        g[k] -= r * ak;
+    }
+    g
+}
+
+fn ulp_up(x: f64) -> f64 {
+    f64::from_bits(x.to_bits() + 1)
+}
+fn ulp_down(x: f64) -> f64 {
+    f64::from_bits(x.to_bits() - 1)
+}
+
+fn generate_round6(seed: u64, thorough: bool, emit: &mut dyn FnMut(String)) {
+    let mut rng = Rng::new(seed ^ 0xC07_0006_B10C);
+    let mut sizes: Vec<usize> = vec![];
+    for b in [16usize, 32, 64, 128, 256] {
+        sizes.extend([b - 1, b, b + 1, b + 2, 2 * b + 1]);
+    }
+    sizes.sort();
+    sizes.dedup();
+    // ---- (O1) THE DEGREE / NUMBER OF TERMS AT A BLOCK BOUNDARY (15..18, 31..34, 63..66, 127..130, 255..258, 513): root at
+    //      +1 or -1, started within a few 1/n outside it (every power x^k stays within e^-2..e^3, so every coefficient is
+    //      alive in value and slope), both modes, both polynomial types.  A chunk of coefficients lost, doubled or shifted
+    //      in the evaluation or in the derivative turns the iteration first-order or moves its limit: the second-order
+    //      residual bound of the statement fails on the returned value.
+    for (i, &n) in sizes.iter().enumerate() {
+        let reps = if thorough { 6 } else { 2 };
+        for j in 0..reps {
+            for extrema in [false, true] {
+                let m = if extrema == (j % 2 == 0) { n - 1 } else { n };
+                let r = if (i + j) % 2 == 0 { 1.0 } else { -1.0 };
+                let mut g = boundary_poly6(m, r, i + j);
+                // keep the values moderate: divide by a power of two of the size of the slope at the root
+                let slope: f64 = g.iter().enumerate().map(|(k, c)| k as f64 * c.abs()).sum();
+                let sc = pow2(-(slope.log2().floor() as i32));
+                for c in g.iter_mut() {
+                    *c *= sc;
+                }
+                let cs = if extrema { antiderivative(&g, (j as f64) - 2.0) } else { g };
+                let simple = (i + j) % 2 == 0;
+                let p = if simple { simple_of(&cs) } else { inter_of(&cs, false) };
+                let nf = n as f64;
+                let d = *rng.pick(&[0.5, 1.0, 2.0, 3.0]) / nf;
+                let x0 = r + r * d; // outside the root of largest modulus on its own side
+                for (tol, cap) in [(1e-7, 200usize), (1e-3, 60)] {
+                    emit_req(emit, &p, x0, tol, cap, extrema);
+                }
+            }
+        }
+    }
+    // ---- (O2 + P) THE NUMBER OF STEPS AT A BLOCK BOUNDARY AND A TOLERANCE EXACTLY EQUAL TO A COMPUTED STEP: Newton on x^2 - c
+    //      from x0 = m 2^k halves x for about k steps and then converges quadratically; the run is replayed here (the
+    //      arithmetic of a monic quadratic without linear term is the same in every evaluation order) and k is chosen so
+    //      that the total number of steps is 15..18, 31..34, 63..66, 127..130.  The relative step e_j (in percent) of the
+    //      last steps is requested as the tolerance: exactly e_j (strict test: one more step), one ulp above / below, 2^-40
+    //      relative away; with a cap of exactly j - 1, j, j + 1, j + 2 steps and an ample one.  Both signs of the start.
+    let wanted: Vec<usize> = sizes.iter().copied().filter(|&s| s <= 130).collect();
+    for (ci, &c) in [4.0f64, 2.0, 9.0, 0.75].iter().enumerate() {
+        let mut done: Vec<usize> = vec![];
+        for k in 0..140i32 {
+            let m = [1.0, 1.5, 1.25, 1.75][(k as usize + ci) % 4];
+            let x0 = m * pow2(k);
+            // replay
+            let mut x = x0;
+            let mut errs: Vec<f64> = vec![];
+            for _ in 0..200 {
+                let old = x;
+                x = old - ((x * x - c) / (2.0 * x));
+                let e = (((x - old).abs() / x) * 100.0).abs();
+                errs.push(e);
+                if e < 1e-9 {
+                    break;
+                }
+            }
+            let total = errs.len();
+            if !wanted.contains(&total) || done.contains(&total) {
+                continue;
+            }
+            done.push(total);
+            let sign = if (k as usize + ci) % 3 == 0 { -1.0 } else { 1.0 };
+            for j in [total - 1, total - 2, total - 3] {
+                // (steps are counted from 1: e_j belongs to step j + 1)
+                let e = errs[j];
+                if !(e > 0.0) || !e.is_finite() {
+                    continue;
+                }
+                let tols = [e, ulp_up(e), ulp_down(e), e * (1.0 + pow2(-40)), e * (1.0 - pow2(-40))];
+                for (vi, tol) in tols.iter().enumerate() {
+                    for cap in [j, j + 1, j + 2, j + 3, 1000] {
+                        if !thorough && (vi + cap + ci) % 2 == 1 && cap != 1000 {
+                            continue;
+                        }
+                        let extrema = (vi + cap) % 3 == 0;
+                        let g = [-c, 0.0, 1.0];
+                        let cs = if extrema { vec![1.0, -c, 0.0, 1.0 / 3.0] } else { g.to_vec() };
+                        let p = if (vi + j) % 2 == 0 { simple_of(&cs) } else { inter_of(&cs, false) };
+                        emit_req(emit, &p, sign * x0, *tol, cap, extrema);
+                    }
+                }
+            }
+        }
+    }
+    // ---- (P2) EXACT COINCIDENCES OF THE ITERATION: a start exactly on a root (the first step is exactly 0), exactly on a
+    //      stationary point (slope exactly 0: no value may come back), a first step that lands exactly on the root or
+    //      exactly on 0, a relative step of exactly 100 % at every pass (x^2: x halves for ever) against tolerances of
+    //      exactly 100, its neighbours and 50 / 200
+    let cases: [(&[f64], f64); 12] = [
+        (&[-4.0, 0.0, 1.0], 2.0),          // on the root
+        (&[-4.0, 0.0, 1.0], -2.0),
+        (&[-4.0, 0.0, 1.0], 0.0),          // on the stationary point
+        (&[0.0, -3.0, 0.0, 1.0], 1.0),     // x^3 - 3x: slope 0 at 1
+        (&[0.0, -3.0, 0.0, 1.0], -1.0),
+        (&[-6.0, 2.0], 7.0),               // linear: one step lands exactly on 3
+        (&[0.0, 2.0], 7.0),                // linear through 0: lands exactly on 0
+        (&[0.0, 0.0, 1.0], 1.0),           // x^2: relative step exactly 100 % for ever
+        (&[0.0, 0.0, 1.0], -3.0),
+        (&[0.0, 0.0, 0.0, 1.0], 8.0),      // x^3: relative step exactly 50 %
+        (&[1.0, -2.0, 1.0], 3.0),          // (x-1)^2
+        (&[-1.0, 0.0, 0.0, 0.0, 1.0], 1.0), // on the root of x^4 - 1
+    ];
+    let tols = [100.0, ulp_up(100.0), ulp_down(100.0), 50.0, ulp_up(50.0), ulp_down(50.0), 200.0, 1e-7, 0.0];
+    for (cs, x0) in cases.iter() {
+        for simple in [true, false] {
+            for &tol in &tols {
+                for cap in [1usize, 2, 16, 17, 64, 65, 1100] {
+                    if !thorough && cap > 2 && cap < 1100 && tol != 100.0 {
+                        continue;
+                    }
+                    let p = if simple { simple_of(cs) } else { inter_of(cs, false) };
+                    emit_req(emit, &p, *x0, tol, cap, false);
+                    let pc = antiderivative(cs, 1.0);
+                    let q = if simple { simple_of(&pc) } else { inter_of(&pc, false) };
+                    emit_req(emit, &q, *x0, tol, cap, true);
+                }
+            }
+        }
     }
 }
